@@ -34,6 +34,17 @@ Theorem C07_opens_nothing_keeps_closed :
   forall s : ustate, top_merging (u_undo (ustep s (OCmd None (u_buf s) KOpens))) = false.
 Proof. exact opens_nothing_keeps_closed. Qed.
 
+(** A session left open at the end of a key string is closed there: typed characters that follow (a [.] in the next
+    argument replays them) are a change of their own, and [u] takes back only that. *)
+Theorem C07_boundary_closes_session :
+  forall (s : ustate) (t : text) (ts : list text),
+    t <> u_buf s ->
+    let s0 := ustep s OBoundary in
+    u_buf (ustep (fold_left (fun s t => ustep s (OCmd None t KContinues)) ts (ustep s0 (OCmd None t KContinues))) OUndo)
+    = u_buf s.
+Proof. exact undo_after_boundary_session. Qed.
+Print Assumptions C07_boundary_closes_session.
+
 (** ... and so is a block insert: the typed text [t] plus the copies [p] that
     leaving the session makes on the other lines of the block. *)
 Theorem C07_undo_block_insert :
